@@ -716,12 +716,14 @@ def parse_vc(path):
                     if not m2:
                         raise ExtractError(f'{path}: bad #abstract-let (need `NAME sha=<hash> = expr`): {s2}')
                     fn.setdefault('abstract', []).append((m2.group(1), m2.group(3).strip(), m2.group(2)))
-                elif s2.startswith('#abstract-stmt '):
+                elif s2.startswith('#abstract-stmt ') or s2.startswith('#abstract-stmt-opt '):
                     # R7: `#abstract-stmt sha=<hash> /regex/ = replacement-statement`
-                    m2 = re.match(r'#abstract-stmt\s+sha=(\w+)\s+/(.+)/\s*=\s*(.+)$', s2)
+                    # (`#abstract-stmt-opt`: a statement that is no longer in the body is not a lost anchor - nothing is abstracted
+                    # then, and whatever the proof took from the statement's assumed contract has to hold without it)
+                    m2 = re.match(r'#abstract-stmt(?:-opt)?\s+sha=(\w+)\s+/(.+)/\s*=\s*(.+)$', s2)
                     if not m2:
                         raise ExtractError(f'{path}: bad #abstract-stmt (need `sha=<hash> /regex/ = stmt`): {s2}')
-                    fn.setdefault('abstract_stmts', []).append((m2.group(2), m2.group(3).strip(), m2.group(1)))
+                    fn.setdefault('abstract_stmts', []).append((m2.group(2), m2.group(3).strip(), m2.group(1), s2.startswith('#abstract-stmt-opt ')))
                 elif s2.startswith('#subst '):
                     # R10: `#subst Self::OutputType => ExternalReceivedMessage`: an associated type of the enclosing
                     # trait impl is replaced by the type the impl assigns to it (the unit wraps the method in an
@@ -969,7 +971,7 @@ def extract_fn(repo, spec, features):
     # the statement MAY mutate (that is what the assumed contract describes), so the abstraction is pinned
     # strictly: any edit of the statement makes the unit UNDECIDED.  NOT meaning-preserving; logged and
     # reported in the evidence as an unverified statement.
-    for (rx, repl, want_sha) in spec.get('abstract_stmts', []):
+    for (rx, repl, want_sha, optional) in spec.get('abstract_stmts', []):
         hits = []
         for j in range(bo, bc):
             t = T[j]
@@ -995,6 +997,9 @@ def extract_fn(repo, spec, features):
             txt = norm(T[a:e])
             if re.search(rx, txt.replace(' ', '')):
                 hits.append((a, e, txt))
+        if optional and len(hits) == 0:
+            log.append({'step': 'R7', 'skipped': f'statement /{rx}/ not in the body; nothing abstracted'})
+            continue
         if len(hits) != 1:
             raise ExtractError(f'lost anchor: statement /{rx}/ in {spec["name"]} ({len(hits)} matches)')
         a, e, txt = hits[0]
